@@ -92,6 +92,9 @@ func runMutant(m *Mutant) MutantResult {
 		if r.Unsupported != "" {
 			unsupported = r.Key + ": " + r.Unsupported
 		}
+		for _, m := range r.MissingAnchors {
+			unsupported = r.Key + ": " + m
+		}
 	}
 	noRetry = !m.MustPass // a must-fail mutant only needs *some* obligation to stop discharging
 	discharge(obls, 10, false, 8)
